@@ -129,7 +129,9 @@ def instance_of(type):
 @attrs(repr=False, frozen=True, slots=True)
 class _MatchesReValidator:
     pattern = attrib()
-    match_func = attrib()
+    # Compared and hashed by the method's name: *pattern* is a field of its
+    # own, and bound methods of equal but distinct patterns are never equal.
+    match_func = attrib(eq=operator.attrgetter("__name__"))
 
     def __call__(self, inst, attr, value):
         """
